@@ -40,6 +40,8 @@ def main() -> int:
         mod = importlib.import_module(f"checks.{a.id}")
         if getattr(mod, "HOOKS", False):
             os.environ["FDTDX_VERIF"] = "1"
+        if getattr(mod, "X64", True) is False:
+            os.environ["JAX_ENABLE_X64"] = "0"  # must happen before jax is imported
         ctx = Ctx(a.id, a.tier, seed, level=getattr(mod, "LEVEL", "model_checking"))
         if getattr(mod, "NEEDS_FDTDX", True):
             import fdtdx
